@@ -7,6 +7,7 @@
  *        -> R gen ok=<sign ret> v=<verify ret> PK <pk tokens> SIG <sig tokens>
  *   verify PK <pk tokens> SIG <sig tokens> MSG <msghex|->
  *        -> R v=<0|1> n=<chain length|-> ord=<6 bits|-> ker=<bit|-> taps=<c k t m h fired>- H=<hex|-> H2=<hex|-> jcom=<hex|-> jalt=<hex|-> jchall=<hex|-> jpk=<hex>
+ *   hints <Are> <Aim> <f>   -> R hints <h0> <h1>     (public canonical-basis hints of the curve with coefficient A)
  * tokens
  *   pk  : Are Aim Cre Cim h0 h1                      (field elements: hex of the canonical integer; hints: decimal int)
  *   sig : (dim2)  Are Aim Cre Cim bt trl m00 m01 m10 m11 chall chall_b ha0 ha1 hc0 hc1
@@ -235,6 +236,12 @@ static void report(int v, const public_key_t *pk)
     print_j("jalt", &tap.Ealt, tap.have_alt);
     print_j("jchall", &tap.Echall, tap.have_chall);
     print_j("jpk", &pk->curve, 1);
+    printf(" Achall=");
+    if (tap.have_chall) {
+        fp2_t a, c; ec_curve_t e = tap.Echall;
+        fp2_copy(&c, &e.C); fp2_inv(&c); fp2_mul(&a, &e.A, &c);
+        fp_print_hex(&a.re); printf(","); fp_print_hex(&a.im);
+    } else printf("-");
     printf("\n");
 }
 
@@ -278,6 +285,13 @@ int main(void)
             report(v, &pk);
             free(m);
             secret_sig_finalize(&sig); public_key_finalize(&pk);
+        } else if (!strcmp(tok[0], "hints") && nt == 4) {
+            /* hints <Are> <Aim> <f> : the public computation ec_curve_to_basis_2f_to_hint on the curve y^2 = x^3 + A x^2 + x */
+            ec_curve_t E; ec_basis_t B; int hint[2] = { 0, 0 };
+            ec_curve_init(&E);
+            fp2_from_hex(&E.A, tok[1], tok[2]);
+            ec_curve_to_basis_2f_to_hint(&B, &E, (int)strtol(tok[3], 0, 10), hint);
+            printf("\nR hints %d %d\n", hint[0], hint[1]);
         } else {
             printf("R bad-op\n");
         }
